@@ -80,6 +80,10 @@ def _once(case, acc, nodes):
         kwargs["ensure_ascii"] = False
     if case["separators"] != "default":
         kwargs["separators"] = SEPARATORS[case["separators"]]
+    # documented defaults spelled out by the caller (any subset of them): must mean the same as leaving them out
+    for key, default in (("indent", None), ("sort_keys", False), ("ensure_ascii", True), ("separators", None)):
+        if key in (case.get("explicit_defaults") or ()):
+            kwargs.setdefault(key, default)
     dx = case.get("dictexporter")
     attriter = childiter = None
     dx_maxlevel = None
@@ -169,6 +173,7 @@ def random_cases(draw):
         "maxlevel": draw(st.one_of(st.none(), st.none(), st.integers(0, 5))),
         "pairs_hook": draw(st.booleans()),
         "explicit_importer": draw(st.booleans()),
+        "explicit_defaults": draw(st.lists(st.sampled_from(["indent", "sort_keys", "ensure_ascii", "separators"]), unique=True, max_size=4)),
         "mutations": draw(strategies.tree_mutations(max_ops=2, rename_values=st.sampled_from(["renamed", "é"]))),
     }
     if draw(st.booleans()):
